@@ -298,10 +298,19 @@ def cleanup (cfg : Cfg) (dist : Nat → Nat) (s : St) : St :=
     | some r =>
       ((sortByFst (s.byDist.filter (fun e => beyond e.1 r))).map (·.2)).foldl (removeKey dist) s
 
-/-- `payment_received` -/
-def payment (s : St) : St :=
+/-- `payment_received` when `flush_historic_quoting_metrics` writes in place: the metrics file holds the new count when the
+call returns. Nothing is spawned; the call still takes one id (ids label store calls that may spawn). -/
+def paymentSync (s : St) : St :=
+  { s with payments := s.payments + 1, hist := some (s.payments + 1), nextId := s.nextId + 1 }
+
+/-- `payment_received` when the flush is a spawned task carrying the count captured at spawn time -/
+def paymentSpawned (s : St) : St :=
   { s with payments := s.payments + 1,
            tasks := s.tasks ++ [(s.nextId, .flush (s.payments + 1))], nextId := s.nextId + 1 }
+
+/-- `payment_received` (which of the two, regenerated from `flush_historic_quoting_metrics`) -/
+def payment (s : St) : St :=
+  if Gen.Store.flushSynchronous then paymentSync s else paymentSpawned s
 
 /-! ## Reads -/
 
@@ -415,7 +424,8 @@ def kadPutTooLarge (cfg : Cfg) (v : Nat) : Bool :=
   if Gen.Store.putSizeInclusive then decide (cfg.maxValueBytes ≤ valLen v) else decide (cfg.maxValueBytes < valLen v)
 
 /-- `with_config` on an existing directory: `update_records_from_an_existing_store` (files that fail
-are deleted), distance index and farthest rebuilt, payment count restored, one flush spawned. -/
+are deleted), distance index and farthest rebuilt, payment count restored and flushed (in place: the metrics file
+holds it when `with_config` returns, no task; or, with a spawned flush, one pending flush task). -/
 def restart (cfg : Cfg) (dist : Nat → Nat) (disk : List (Nat × File)) (hist : Option Nat) (nextId : Nat) : St :=
   let index := scanIndex cfg disk
   { index := index,
@@ -423,8 +433,8 @@ def restart (cfg : Cfg) (dist : Nat → Nat) (disk : List (Nat × File)) (hist :
     farthest := calcFarthest dist index,
     cache := [], clock := 0,
     disk := disk.filter (fun e => (scanEntry cfg e.1 e.2).isSome || !nameKept e.1),
-    hist := hist,
-    tasks := [(nextId, .flush (hist.getD 0))], notes := [], nextId := nextId + 1,
+    hist := if Gen.Store.flushSynchronous then some (hist.getD 0) else hist,
+    tasks := if Gen.Store.flushSynchronous then [] else [(nextId, .flush (hist.getD 0))], notes := [], nextId := nextId + 1,
     payments := hist.getD 0, range := none }
 
 /-- a fresh store on an empty directory -/
